@@ -121,7 +121,7 @@ class Gen:
         kind = r.choice(["var-own-name", "inner-function-own-name", "param-own-name"])
         if kind == "var-own-name":
             lines.append("function %s(){ var %s = 1; var t0 = typeof %s; var %s; var %s = 2; return t0 + ':' + (%s + %s); }" % (selfn, o1, selfn, selfn, o2, o1, o2))
-            inner_vals.append(("%s()" % selfn, "function:3"))
+            inner_vals.append(("%s()" % selfn, "undefined:3"))  # (var X inside function X hides the function: ES)
         elif kind == "inner-function-own-name":
             lines.append("function %s(lvl_){ var %s = 5; if (lvl_ > 0) { return %s(lvl_ - 1) + 1; } function %s_in(){ return %s; } var %s = 7; return %s_in() + %s; }" % (selfn, o1, selfn, selfn, o1, o2, selfn, o2))
             inner_vals.append(("%s(2)" % selfn, 14))
